@@ -59,4 +59,14 @@ def make(oscore):
         def post_seqnoincrease(self):
             self.issued.append(self.sender_sequence_number - 1)
 
+    class PeerContext(HarnessContext):
+        """The OTHER side of the context under test (never the implementation whose behaviour is judged): a peer
+        may legitimately send the last partial IV 2^40-1, which aiocoap's own sender refuses to issue."""
+
+        def new_sequence_number(self):
+            n = self.sender_sequence_number
+            self.sender_sequence_number += 1
+            return n
+
+    HarnessContext.Peer = PeerContext
     return TransparentAead, HarnessContext
